@@ -17,14 +17,23 @@ def run(tier):
     wd = common.workdir("own")
     dims = (1, 2) if tier == "quick" else (1, 2, 3)
     total_ops = 0
+    allres = {}
     for D in dims:
         mod = ownrules.module(wd, D)
         res = ownrules.analyse(mod, rep)
+        allres[D] = (mod, res)
         total_ops += len(res)
         ownrules.typestate_obligations(rep, mod, res, "normal", "D=%d" % D)
     # element-construction helpers: exact construct / destroy ranges (loops unrolled)
     nexact = ownrules.rollback_exact(rep, ownrules.module(wd, 1), "D=1", "R08", 3 if tier == "quick" else 5)
     rep.need_instances("R08.exact helpers interpreted with unrolled loops", nexact, 9)
+    # the destroy primitive and its call sites agree on which end of the range is passed (eighth seed round: the primitive's contract changed from
+    # "beginning" to "end" with one caller, the 0-D array, left behind)
+    direction = ownrules.destroy_direction(rep, ownrules.module(wd, 1), "D=1", 3)
+    nsites = 0
+    if direction is not None:
+        for D in dims:
+            nsites += ownrules.destroy_sites(rep, allres[D][0].ops, allres[D][1], direction, "D=%d" % D)
     # whether elements are constructed does not depend on their destructor: with an element type that differs from the observable one only in being
     # trivially destructible, every operation reaches the same element-construction primitives on its normal paths (destruction steps may vanish)
     base1 = ownrules.module(wd, 1)
@@ -90,6 +99,29 @@ extern "C" void z_ctor_elem(void* m, Tracked const& e) { new(m) Arr0(e); }
                 rep.ok(key, "R08.trivial", None)
     except (common.AnalysisBroken, absint.Limit) as e:
         rep.break_("R08.trivial (0-D): %s" % str(e)[:300])
+    # 0-dimensional arrays with the observable element type: the call sites of the destroy primitive (destructor, clear)
+    src = os.path.join(wd, "zero_d_nt.cpp")
+    with open(src, "w") as fh:
+        fh.write(owning.TYPES + """
+using A = ObsAlloc<Tracked>; using Arr0 = multi::array<Tracked, 0, A>; using SArr0 = multi::static_array<Tracked, 0, A>;
+extern "C" void z_dtor(Arr0* a) { a->~Arr0(); }
+extern "C" void z_sdtor(SArr0* a) { a->~SArr0(); }
+""")
+    if direction is not None:
+        try:
+            zmod = ir0.parse(ir0.emit_o0(src, src[:-4] + ".ll", defines=("-DNDEBUG",)))
+            ir0.demangle_all(zmod)
+            zi = absint.Interp(zmod)
+            rep.units.add("zero_d_nt.cpp")
+            zops = dict(z_dtor=dict(body="a.~array<T,0>();"), z_sdtor=dict(body="a.~static_array<T,0>();"))
+            zres = {fn: [dict(events=p_.events) for oc, rv, p_ in zi.run(fn)] for fn in zops}
+            n0 = ownrules.destroy_sites(rep, zops, zres, direction, "D=0")
+            if n0 < 2:
+                rep.break_("R08.prim.site (0-D): only %d of the 2 destroy call sites of 0-D arrays were classified" % n0)
+            nsites += n0
+        except (common.AnalysisBroken, absint.Limit) as e:
+            rep.break_("R08.prim.site (0-D): %s" % str(e)[:300])
+        rep.need_instances("R08.prim.site destroy call sites classified", nsites, 12 * len(dims))
     rep.need_instances("A.operations analysed", total_ops, 62 * len(dims))
     rep.need_instances("R08.inv traces", sum(1 for o in rep.obligations if o["family"] == "R08.inv"), 150 * len(dims))
     rep.explanation = ("Abstract interpretation (term domain, path-sensitive, exception edges followed) of the unoptimised LLVM IR of driver functions that "
